@@ -39,7 +39,7 @@ let mk_sys toks =
     let nn = Array.length nps in
     let ff u = u < String.length ffs && ffs.[u] = '1' in
     let nt = nn + 1 in
-    let c = ref (ev_init k (n_of_int capi) tc pol_model pdist lp
+    let c = ref (ev_init true k (n_of_int capi) tc pol_model pdist lp
                    (fun u -> let i = int_of_nat u in if i < nn then List.map n_of_int nps.(i) else [])
                    (fun u -> ff (int_of_nat u))) in
     let step t =
